@@ -588,8 +588,7 @@ std::string RunFault(const JVal& scn, const std::string& doc, const std::string&
 		std::unique_ptr<FailingOutBuf> obuf;
 		std::unique_ptr<std::ostream> ostr;
 		StreamHolder holder;
-		std::string outMem;
-		outMem.reserve(1 << 16);
+		std::string outMem;		// not pre-reserved: growing the caller's output string is a fault point of the save
 		const bool streamIn = kind == "failat" || kind == "throwat" || (kind == "probe" && !isSave && scn.HasMember("stream") && scn["stream"].GetBool()) || (kind == "alloc" && !isSave && scn.HasMember("stream") && scn["stream"].GetBool());
 		const bool streamOut = kind == "ofailat" || kind == "othrowat" || (isSave && scn.HasMember("stream") && scn["stream"].GetBool());
 		if (!isSave && streamIn) holder = MakeStream(kind == "failat" || kind == "throwat" ? kind : "short3", doc, static_cast<size_t>(k));
@@ -620,9 +619,10 @@ std::string RunFault(const JVal& scn, const std::string& doc, const std::string&
 			AllocDisarm();
 		}
 		catch (...) { allocsInCall = AllocSinceArm(); AllocDisarm(); exc = DescribeException(); }
+		if (isSave && !ostr) produced = outMem.size();
+		{ std::string().swap(outMem); }
 		liveAfter = AllocLive();
 		if (ostr) { streamBad = ostr->fail(); produced = obuf->data.size(); faultHits = obuf->failHits; }
-		else if (isSave) produced = outMem.size();
 		if (holder.scripted) faultHits = holder.scripted->failHits;
 		if (holder.stream) streamBad = holder.stream->bad();
 	}
